@@ -299,18 +299,30 @@ fn live_case(seed: u64, ev: &Evidence) -> CaseResult {
     let mut w = World::new(P, cfg);
     let a = w.new_party();
     w.create_group(a).map_err(|e| Failure::new(format!("{P}|setup"), e.text().to_string()))?;
-    let n_commits = 2 + rng.below(4);
+    let n_commits = 3 + rng.below(5);
+    // resumption secret of every epoch so far, and the first epoch each party was a member of
+    let mut resumption_of: std::collections::BTreeMap<u64, Vec<u8>> = Default::default();
+    let mut member_since: std::collections::BTreeMap<usize, u64> = Default::default();
+    member_since.insert(a, 0);
     for i in 0..n_commits {
         let members = w.members();
+        // members persist their state now and then: a past epoch then lives in the store, in the pending writes, or in both
+        for m in &members {
+            if rng.below(3) == 0 {
+                w.save(*m).map_err(|e| Failure::new(format!("{P}|setup_save|{}", e.class()), e.text().to_string()))?;
+                ev.class("live_members_persisted_between_commits");
+            }
+        }
         let committer = members[rng.below(members.len() as u64) as usize];
         let before = w.parties[committer].g().verif_epoch_keys();
+        resumption_of.insert(w.epoch, before.resumption_secret.clone());
         let committer_leaf_before = w.parties[committer].leaf();
         let ctx_before = w.parties[committer].g().context().mls_encode_to_vec().expect("ctx");
         let mut spec = CommitSpec::default();
         // path-less commits have commit_secret = 0: the whole chain is recomputable. Either an add-only commit, or a commit
         // that injects 2-3 external PSKs by value in a generated order (the PSK chain of RFC 9420 §8.4 depends on the order
         // of the proposals in the commit).
-        let with_psks = w.members().len() >= 2 && rng.below(2) == 0;
+        let with_psks = w.members().len() >= 2 && rng.below(3) != 0;
         if with_psks {
             let mut ids: Vec<Vec<u8>> = vec![b"psk-c".to_vec(), b"psk-a".to_vec(), b"psk-b".to_vec()];
             for k in (1..ids.len()).rev() {
@@ -325,7 +337,13 @@ fn live_case(seed: u64, ev: &Evidence) -> CaseResult {
             spec.external_psks = ids;
             // and sometimes the current epoch's resumption PSK, before or after the external ones
             if rng.below(2) == 0 {
-                spec.resumption_psk_epochs = vec![w.epoch];
+                // ... of the current epoch or of a retained past one that every member has lived through
+                let oldest = members.iter().map(|m| member_since.get(m).copied().unwrap_or(w.epoch)).max().unwrap_or(w.epoch).max(w.epoch.saturating_sub(2));
+                let e = if oldest < w.epoch && rng.below(3) != 0 { oldest + rng.below(w.epoch - oldest) } else { w.epoch };
+                if e < w.epoch {
+                    ev.class("live_commits_with_resumption_psk_of_a_past_epoch");
+                }
+                spec.resumption_psk_epochs = vec![e];
                 spec.resumption_psks_first = rng.below(2) == 0;
             }
         } else {
@@ -338,6 +356,9 @@ fn live_case(seed: u64, ev: &Evidence) -> CaseResult {
             Err(e) => return Err(Failure::new(format!("{P}|setup_commit|{}", e.class()), e.text().to_string())),
         };
         ev.eval(1);
+        for j in &info.joined {
+            member_since.insert(*j, w.epoch);
+        }
         let g = w.parties[committer].g();
         let after = g.verif_epoch_keys();
         let ctx_after = g.context().mls_encode_to_vec().expect("ctx");
@@ -387,11 +408,11 @@ fn live_case(seed: u64, ev: &Evidence) -> CaseResult {
                     psks.push((rk::PskIdRef::External { id, nonce }, value));
                 } else if let (Some(usage), Some(gid), Some(ep)) = (field(i, "usage"), field(i, "psk_group_id").map(opq), field(i, "psk_epoch")) {
                     let epoch = u64::from_be_bytes(ep.try_into().unwrap_or([0; 8]));
-                    // only the epoch the commit is sent in is used here: its resumption secret is in `before`
-                    if epoch != info.epoch_before {
+                    // the resumption secret of that epoch as recorded when the group was in it
+                    let Some(value) = resumption_of.get(&epoch).cloned() else {
                         return Err(Failure::new(format!("{P}|harness|unexpected_resumption_epoch"), format!("{epoch}")));
-                    }
-                    psks.push((rk::PskIdRef::Resumption { usage: usage[0], group_id: gid, epoch, nonce }, before.resumption_secret.clone()));
+                    };
+                    psks.push((rk::PskIdRef::Resumption { usage: usage[0], group_id: gid, epoch, nonce }, value));
                     ev.class("live_commits_with_resumption_and_external_psks");
                 }
             }
